@@ -44,6 +44,7 @@
 EXTENDS Naturals, Integers, Sequences, FiniteSets, TLC
 
 CONSTANTS
+    Strangers,      \* BOOLEAN: stations outside Subs use SubscribeCOVProperty on the same objects (Stranger action)
     Objs,           \* monitored objects 1..n
     Analog,         \* subset of Objs with COVIncrementCriteria (analog-value, pulse-converter)
     Inc,            \* [Objs -> Nat] COV increment (only read for Analog)
@@ -197,6 +198,7 @@ G_Expire(s, p, o) ==
        want' = IF w.on /\ w.life # 0 /\ now >= Expiry(w) THEN [want EXCEPT ![<<s, p, o>>] = NoWant] ELSE want
     /\ G_Loop([Blank EXCEPT !.op = "expire", !.s = s, !.p = p, !.o = o], {})
 G_Drain == UNCHANGED want /\ G_Loop([Blank EXCEPT !.op = "drain"], {})
+G_Stranger(o) == UNCHANGED want /\ G_Loop([Blank EXCEPT !.op = "stranger", !.o = o], {o})
 G_Read(s) == UNCHANGED want /\ G_Loop([Blank EXCEPT !.op = "read", !.s = s], {})
 G_Tick(d) == UNCHANGED <<want, gRep, gq>> /\ act' = [Blank EXCEPT !.op = "tick", !.v = d]
 \* for analog objects: a change of at least the increment since the last reported value; for others: any change
@@ -235,6 +237,14 @@ Expire(s, p, o) ==
 Drain ==
     /\ NoDue /\ Commit(DrainAll(St))
     /\ NoRead /\ UNCHANGED <<now, pv, fl>> /\ G_Drain
+
+\* a station that is none of the subscribers subscribes to a property of o with SubscribeCOVProperty and cancels again at
+\* once, while others are subscribed to o: that is its own business -- for everybody else the step is a pass of the loop
+\* (its initial notification reports the current value like anybody's: the object-level "last reported value" follows)
+Stranger(o) ==
+    /\ NoDue /\ det[o] /\ subs[o] # <<>>
+    /\ Commit(Reported(DrainAll(St), o))
+    /\ NoRead /\ UNCHANGED <<now, pv, fl>> /\ G_Stranger(o)
 
 Read(s) ==
     /\ NoDue
@@ -279,6 +289,7 @@ Next ==
     \/ Drain
     \/ \E d \in TickSteps : Tick(d)
     \/ Read(1)         \* who reads does not matter
+    \/ (Strangers /\ \E o \in Objs : Stranger(o))
 
 Spec == Init /\ [][Next]_vars
 Bound == TLCGet("level") <= MaxLevel
@@ -289,7 +300,7 @@ View == <<now, pv, fl, det, lastRep, trig, subs, dq, stuck, want, gRep, gq>>
 ----------------------------------------------------------------------------
 \* Properties (C16).  All of them speak about the step recorded in act, the outputs of that step (out, alist),
 \* the inputs (now, pv, fl) and the ghosts.
-Looped == act.op \in {"sub", "cancel", "expire", "drain", "read"}
+Looped == act.op \in {"sub", "cancel", "expire", "drain", "read", "stranger"}
 IsInit(k) == act.op = "sub" /\ k = <<act.s, act.p, act.o>>
 NotesOf(k) == SelectSeq(out[k[1]], LAMBDA n : n.t = "note" /\ n.p = k[2] /\ n.o = k[3])
 Cnt(k) == Len(NotesOf(k))
